@@ -93,6 +93,7 @@ def mworld (m : Mach) (fuel : Nat) : World M MV where
   throw cls := throw cls
   rethrow := throw "reraise"
   catchAll body handler := tryCatch body (fun _ => handler)
+  catchCls cls body handler := tryCatch body (fun e => if e == cls then handler else throw e)
 
 
 /-- an empty sub-population makes no transition -/
